@@ -1,22 +1,35 @@
 #!/usr/bin/env python3
-"""Adds the statistics of the libFuzzer stage to /verif/evidence/<id>.json."""
-import json, re, sys
-pid, target, log, seed = sys.argv[1:5]
-text = open(log, errors="replace").read()
-m = re.findall(r"#(\d+)\s+DONE\s+cov: (\d+) ft: (\d+) corp: (\d+)/(\S+)", text)
-execs = re.search(r"stat::number_of_executed_units:\s*(\d+)", text)
-path = f"/verif/evidence/{pid}.json"
+"""Adds the statistics of a libFuzzer stage to <VERIF_ROOT>/evidence/<id>.json.
+usage: merge_fuzz_evidence.py <id> <target> <seed> <log> [more logs of parallel processes]"""
+import json, os, re, sys
+pid, target, seed = sys.argv[1:4]
+logs = sys.argv[4:]
+root = os.environ.get("VERIF_ROOT", "/verif")
+runs = 0; cov = 0; ft = 0; corp = 0; execs = 0; crashed = False
+for log in logs:
+    text = open(log, errors="replace").read()
+    m = re.findall(r"#(\d+)\s+DONE\s+cov: (\d+) ft: (\d+) corp: (\d+)/(\S+)", text)
+    if m:
+        r, c, f, cp, _ = m[-1]
+        runs += int(r); cov = max(cov, int(c)); ft = max(ft, int(f)); corp = max(corp, int(cp))
+    e = re.search(r"stat::number_of_executed_units:\s*(\d+)", text)
+    if e:
+        execs += int(e.group(1))
+    crashed = crashed or ("Test unit written to" in text)
+path = f"{root}/evidence/{pid}.json"
 ev = json.load(open(path))
-cov = ev["coverage"]
-fz = {"target": target, "seed": int(seed), "engine": "libFuzzer via cargo-fuzz (no sanitizer; safe Rust)",
-      "oracle": "the same semantic oracle as the property-based check (vp::props::*::fuzz_*), violation = abort"}
-if m:
-    runs, c, ft, corp, size = m[-1]
-    fz.update({"runs": int(runs), "coverage_edges": int(c), "features": int(ft), "final_corpus": int(corp), "corpus_bytes": size})
-if execs:
-    fz["executed_units"] = int(execs.group(1))
-fz["crashed"] = "Test unit written to" in text
-cov["fuzz_campaign"] = fz
-if "runs" in fz:
-    cov["evaluations"] = cov.get("evaluations", 0) + fz["runs"]
+covd = ev["coverage"]
+if target == "prop_case":
+    fz = {"target": target, "seed": int(seed), "processes": len(logs),
+          "engine": "libFuzzer via cargo-fuzz (no sanitizer; safe Rust), custom structure-aware mutator and crossover",
+          "inputs": "serialised cases of the property (JSON); the mutator edits the operation/event sequence and top-level fields only with material drawn from the property's own proptest strategy, so every input is inside the generator's domain",
+          "oracle": "Property::run, the same oracle as the property-based tier; violation = abort, the saved input is reduced and confirmed by vp --shrink-case"}
+    key = "case_campaign"
+else:
+    fz = {"target": target, "seed": int(seed), "engine": "libFuzzer via cargo-fuzz (no sanitizer; safe Rust)",
+          "oracle": "the same semantic oracle as the property-based check (vp::props::*::fuzz_*), violation = abort"}
+    key = "fuzz_campaign"
+fz.update({"runs": runs, "coverage_edges": cov, "features": ft, "final_corpus": corp, "executed_units": execs, "crashed": crashed})
+covd[key] = fz
+covd["evaluations"] = covd.get("evaluations", 0) + runs
 json.dump(ev, open(path, "w"), indent=1)
